@@ -1038,7 +1038,7 @@ def gen_doc2(r, maxnodes=14):
         table.append(("e", name, "", parent))
         xml = "<" + name
         if depth == 0:
-            xml += ' xmlns:set="http://exslt.org/sets" xmlns:x="http://xml.apache.org/xalan"'
+            xml += ' xmlns:set="http://exslt.org/sets" xmlns:x="http://xml.apache.org/xalan" xmlns:math="http://exslt.org/math"'
         if r.chance(1, 2):
             idn[0] += 1
             table.append(("a", "k", "i%d" % idn[0], me))
@@ -1199,3 +1199,61 @@ def g_context_kind_expr(r):
     if w == 4:
         return "name(%s[%s][last()])" % (s1, f1)
     return "%s[%s and %s]" % (s1, f1, r.choice(CONTEXT_FUNCS))
+
+
+# ---------------------------------------------------------------------------------------------
+# value sequences: documents whose sibling values spell out words over a small alphabet, so that every duplicate / adjacency
+# pattern of string-values occurs (a,b,a,b ; x,x,x,y ; ...), for the functions that compare the string-values of the nodes of a set
+
+def all_words(alphabet, maxlen):
+    ws = [[]]
+    out = []
+    for _ in range(maxlen):
+        ws = [w + [c] for w in ws for c in alphabet]
+        out += ws
+    return out
+
+
+def words_doc(words):
+    """<r><s><v>..</v>...</s>...</r> : one <s> per word, one <v> per letter; (xml, table)"""
+    table = [("r", "", "", -1), ("e", "r", "", 0)]
+    xml = '<r xmlns:set="http://exslt.org/sets" xmlns:x="http://xml.apache.org/xalan" xmlns:math="http://exslt.org/math">'
+    for w in words:
+        sidx = len(table)
+        table.append(("e", "s", "", 1))
+        xml += "<s>"
+        for c in w:
+            vidx = len(table)
+            table.append(("e", "v", "", sidx))
+            if c != "":
+                table.append(("t", "", c, vidx))
+                xml += "<v>%s</v>" % c
+            else:
+                xml += "<v/>"
+        xml += "</s>"
+    xml += "</r>"
+    return xml, table
+
+
+SEQ_FUNCS_1 = ["x:distinct({0})", "set:distinct({0})", "count(x:distinct({0}))", "count(set:distinct({0}))", "math:highest({0})",
+               "math:lowest({0})", "x:distinct({0}/text())", "set:distinct({0} | {1})", "x:distinct(({0} | {1})/text())",
+               "string(x:distinct({0})[last()])", "count(x:distinct({0})) = count(set:distinct({0}))"]
+SEQ_FUNCS_2 = ["set:difference({0}, {1})", "set:intersection({0}, {1})", "x:difference({0}, {1})", "x:intersection({0}, {1})",
+               "set:leading({0}, {1})", "set:trailing({0}, {1})", "set:has-same-node({0}, {1})",
+               "set:leading(//v, {0}[2])", "set:trailing(//v, {1}[1])", "set:difference(//v, {0})", "x:intersection(//v, {1})",
+               "count(set:difference(x:distinct(//v), set:distinct({0})))"]
+
+
+def g_sequence_requests(r, nwords):
+    """(xml, table, [expr...]) for one value-sequence document of `nwords` groups"""
+    nodes = ["//s[%d]/v" % (i + 1) for i in range(nwords)]
+    exprs = []
+    for i in range(nwords):
+        for f in SEQ_FUNCS_1[:6]:
+            exprs.append(f.format(nodes[i]))
+        j = r.below(nwords)
+        for f in r.shuffle(SEQ_FUNCS_1[6:])[:2] + r.shuffle(SEQ_FUNCS_2)[:3]:
+            exprs.append(f.format(nodes[i], nodes[j]))
+    exprs.append("x:distinct(//v)")
+    exprs.append("set:distinct(//v/text())")
+    return exprs
